@@ -4,10 +4,22 @@ import json, sys
 pid, wd = sys.argv[1], sys.argv[2]
 n = sys.argv[3] if len(sys.argv) > 3 else "3"
 focus = sys.argv[4] if len(sys.argv) > 4 else ""
+outdir = sys.argv[5] if len(sys.argv) > 5 else None
+import glob, os
+tried = []
+for d in sorted(glob.glob('/verif/seeded/%s-*' % pid)):
+    try:
+        m = json.load(open(os.path.join(d, 'meta.json')))
+        if m.get('summary'): tried.append(str(m['summary']).replace("\n", " ")[:400])
+    except Exception:
+        pass
+if tried and outdir:
+    focus += " The following ideas have ALREADY been tried by others - do not repeat them or close variants; look for different code paths, different clauses of the property, and different mechanisms (caching/aliasing between calls, boundary sizes, ordering of operations, error paths, rarely used options, interactions between two packages): " + " || ".join("(%d) %s" % (i + 1, t) for i, t in enumerate(tried))
 for l in open('/verif/properties.jsonl'):
     p = json.loads(l)
     if p['id'] == pid:
         break
+OUT = outdir or (wd + "/../out_" + pid + "_" + os.path.basename(wd))
 print(f"""You are testing how well a semantic property of the Go repository golang/perf is protected. You have your own scratch git worktree of the repository at {wd} (work only there; do not touch /repo, /verif or any other directory; no network: `export GOFLAGS=-mod=mod GOPROXY=off GOSUMDB=off GOTOOLCHAIN=local` before every go command).
 
 THE PROPERTY ({pid} — {p['title']}):
@@ -20,6 +32,6 @@ YOUR JOB: produce {n} DIFFERENT, independent changes (mutations) to the reposito
 For each mutation i = 1..{n}:
  1. start from a clean worktree (`git -C {wd} checkout -- . && git -C {wd} clean -fdq`), make the change, confirm build + full test suite pass;
  2. write a demonstration — a small Go test file (new file, e.g. zz_demo_test.go in the relevant package) or small program — that FAILS with the change and PASSES without it, demonstrating a concrete violation of the property as stated above (not merely 'output changed');
- 3. save into {wd}/../out_{pid}_$(basename {wd})/m<i>/ : `patch.diff` (output of `git diff` of the source change ONLY, without the demo), the demo file(s) with a note of the path where it must be placed, and `meta.json` with fields: property, summary (what was changed), needs (what it needs in order to manifest), demo_cmd (exact command to run the demo), files_changed;
+ 3. save into {OUT}/m<i>/ : `patch.diff` (output of `git diff` of the source change ONLY, without the demo), the demo file(s) with a note of the path where it must be placed, and `meta.json` with fields: property, summary (what was changed), needs (what it needs in order to manifest), demo_cmd (exact command to run the demo), files_changed;
  4. verify the claim end to end once more from clean: apply patch → suite passes, demo fails; revert patch → demo passes. Then clean the worktree again.
 Finally reply with a short list: for each mutation its directory, one-line summary, and what it needs to manifest. Do not leave the worktree modified.""")
